@@ -280,25 +280,19 @@ class CanonError(Exception):
     pass
 
 
-def _is_lit(n) -> bool:
+def _is_atom(n) -> bool:
+    """constants as Python's parser produces them: atoms only (a dict/list in the file is a display,
+    whether the generator built it as ast.Constant or as ast.Dict/ast.List)"""
     if isinstance(n, ast.Constant):
         return n.value is not Ellipsis and not isinstance(n.value, (bytes, complex))
     if isinstance(n, ast.UnaryOp) and isinstance(n.op, ast.USub):
-        if isinstance(n.operand, ast.Name):
-            return n.operand.id == "inf"
         return isinstance(n.operand, ast.Constant) and isinstance(n.operand.value, (int, float)) \
             and not isinstance(n.operand.value, bool)
-    if isinstance(n, ast.List):
-        return all(_is_lit(e) for e in n.elts)
-    if isinstance(n, ast.Dict):
-        return all(k is not None and _is_lit(k) for k in n.keys) and all(_is_lit(v) for v in n.values)
-    if isinstance(n, ast.Name):
-        return n.id in ("inf", "nan")     # what repr() writes for non-finite floats inside containers
     return False
 
 
 def canon_expr(n):
-    if _is_lit(n) and not (isinstance(n, ast.Name)):
+    if _is_atom(n):
         return [Sym("c"), ast.unparse(n)]
     if isinstance(n, ast.Name):
         return [Sym("n"), n.id]
